@@ -167,6 +167,24 @@ fn fen_mutants(base: &str, out: &mut Vec<String>) {
             }
         }
     }
+    // rank-token permutations: every swap of two rank tokens and every rotation (a token must be
+    // decoded according to where it stands, not according to what it looks like)
+    for i in 0..ranks.len() {
+        for j in (i + 1)..ranks.len() {
+            let mut r = ranks.clone();
+            r.swap(i, j);
+            let mut f: Vec<String> = fields.iter().map(|x| x.to_string()).collect();
+            f[0] = r.join("/");
+            out.push(f.join(" "));
+        }
+    }
+    for k in 1..ranks.len() {
+        let mut r = ranks.clone();
+        r.rotate_left(k);
+        let mut f: Vec<String> = fields.iter().map(|x| x.to_string()).collect();
+        f[0] = r.join("/");
+        out.push(f.join(" "));
+    }
     // clock magnitudes
     if fields.len() == 6 {
         for clk in ["4294967295", "4294967296", "100000000000000000000", "00", "007", "-1", "+1", "1.5", "", "٣"] {
